@@ -3,7 +3,7 @@
 CONSTANTS
   DS = 16  DE = 19
   NK = 2  MaxGen = 2  MaxTs = 2  Sizes = {1, 2}  JMax = 1  MaxFlush = 2
-  RetireAny = TRUE  GhostTails = TRUE  Tears = 1
+  RetireAny = TRUE  GhostTails = TRUE  Tears = 2
   FreshStart = TRUE  InitSync = FALSE
   SyncIntent = TRUE  SyncData = TRUE  SyncClear = TRUE
   JournalAll = TRUE  SuccTest = TRUE  SyncMarkers = TRUE
